@@ -145,6 +145,7 @@ def run(ctx):
     rule6(ctx, prog, flows, root)
     rule7(ctx, prog, flows, root)
     rule8(ctx, prog, flows, root)
+    rule10(ctx, prog, flows, root)
     from props.c08 import relaxation_discipline
 
     relaxation_discipline(ctx, prog, flows, "R-C06-9", {"closeness::single_source_shortest_path_length_weighted": "closeness"})
@@ -340,3 +341,44 @@ def rule8(ctx, prog, flows, root):
             ctx.require(not bad, "R-C06-8", "count-compare|%s|%d" % (b.short.split("::")[-1], n), "%s compares a collection size with the node count" % b.short.split("::")[-1],
                         "%s compares the size of a collection with %s: the early exit of the search then fires when as many nodes have been reached as the graph has EDGES -- on a graph with fewer edges than nodes (a tree, a path) deeper nodes are never reached and the closeness of the source is computed from a truncated list" % (b.short, "/".join(bad)), loc_str(st.span))
     ctx.counters["count_comparisons_in_closeness_kernels"] = n
+
+
+def rule10(ctx, prog, flows, root):
+    """two small decisions around the formula: (a) the quotient (r-1)/T is taken only when the distance sum T is
+    STRICTLY positive ("0 when nothing else reaches u": T = 0 there, and 0/0 is NaN); (b) the weighted kernel reports
+    exactly the nodes whose final distance is not f64::MAX (the reached ones)."""
+    from engines import predicate_true_paths
+
+    ctx.rule("R-C06-10", "the quotient is guarded by a strict `distance sum > 0`; the weighted kernel's result keeps exactly the entries whose distance != f64::MAX")
+    gnc = prog.find("closeness::get_node_centrality")
+    n = 0
+    if gnc:
+        b = gnc[0]
+        fl = flows.of(b)
+        for st in b.stmts():
+            if not (st.k == "assign" and st.rv.k == "binop" and st.rv.j["op"] == "Div" and st.lhs.ty == "f64"):
+                continue
+            for (te, v, a) in controlling_atoms(fl, st.bb):
+                if isinstance(te, tuple) and te[0] == "binop" and te[1] in ("Gt", "Ge", "Lt", "Le") and desc_mentions(te, lambda x: x[0] == "call" and x[1].split("::")[-1] in ("sum", "fold")) and desc_mentions(te, lambda x: x[0] == "const" and x[1].replace("const ", "").startswith("0")):
+                    n += 1
+                    sum_left = desc_mentions(te[2], lambda x: x[0] == "call" and x[1].split("::")[-1] in ("sum", "fold"))
+                    # the relation that HOLDS on this path, written as `sum REL 0`
+                    rel = te[1] if v else {"Gt": "Le", "Ge": "Lt", "Lt": "Ge", "Le": "Gt"}[te[1]]
+                    if not sum_left:
+                        rel = {"Gt": "Lt", "Ge": "Le", "Lt": "Gt", "Le": "Ge"}[rel]
+                    ctx.require(rel == "Gt", "R-C06-10", "sum-positive|%d" % n, "the quotient is taken under `distance sum > 0`", "the quotient is taken under `distance sum %s 0`: for a node nothing else reaches the sum is 0 and (r-1)/0 is NaN (or infinite) instead of the 0 the definition gives" % {"Ge": ">=", "Lt": "<", "Le": "<="}.get(rel, rel), loc_str(st.span))
+    for sfx in ("closeness::single_source_shortest_path_length_weighted",):
+        k = prog.one(sfx)
+        for cb in prog.closures_of(k.path):
+            if cb.local_ty(0) != "bool":
+                continue
+            paths = predicate_true_paths(flows.of(cb), cb)
+            if paths is None:
+                continue
+            if not any(any("MAX" in o for o in ops) for pth in paths for (_r, _p, ops) in pth):
+                continue
+            n += 1
+            ok = len(paths) == 1 and len(paths[0]) == 1 and all(rel == "eq" and pol is False for (rel, pol, ops) in paths[0])
+            ctx.require(ok, "R-C06-10", "reached-filter|%s" % sfx.split("::")[-1], "%s keeps exactly the entries whose distance is not f64::MAX" % sfx.split("::")[-1],
+                        "the result filter of %s is true under %s: it keeps the UNREACHED nodes (distance f64::MAX) or drops reached ones, so r and the distance sum are those of the wrong node set" % (sfx, [sorted(("%s%s(%s)" % ("" if pol else "!", rel, ",".join(sorted(ops)))) for (rel, pol, ops) in pth) for pth in paths]), loc_str(cb.span))
+    ctx.counters["closeness_small_decisions"] = n
